@@ -17,10 +17,10 @@ package main
 import (
 	"encoding/json"
 	"flag"
-	"os/exec"
 	"fmt"
 	"math/rand"
 	"os"
+	"os/exec"
 	"path/filepath"
 	"reflect"
 	"sort"
@@ -225,9 +225,6 @@ func shrink(c ocase) ocase {
 					return false
 				}
 				d.objs = append(d.objs, ch.Obj)
-			}
-			for _, ch := range x[1] {
-				_ = ch
 			}
 			return fails(d, 3)
 		}, 120)
